@@ -37,6 +37,14 @@ def kernel_fq():
                 raise AnalysisError("Kernel.Fq: result index %s is not nout*nq + const" % pf.unparse(sl))
             return ast.Name("R%d" % int(k), ast.Load())
     import copy
+    # locals that name layout quantities (nq = self.q_input.nq, base = nout*nq, ...) take part in the index algebra
+    for st0 in fn.body:
+        if isinstance(st0, ast.Assign) and len(st0.targets) == 1 and isinstance(st0.targets[0], ast.Name) \
+                and not isinstance(st0.value, ast.IfExp):
+            try:
+                lay[st0.targets[0].id] = affine(st0.value, lay)
+            except Exception:
+                pass
     env = {}
     guards = []
     nout_text = None
